@@ -23,11 +23,11 @@ PROBES = {"C13": ["stretch_inside_training", "stretch_overlapping_end", "stretch
                   "reconfigured_and_refitted", "strided_stretch", "refitted_on_other_stretch",
                   "frozen_update_checked", "period_changed_and_refitted",
                   "fit_transform_on_fitted_instance", "unpaired_calls_checked",
-                  "sibling_from_same_arguments", "refitted_on_structureless_series",
+                  "sibling_from_same_arguments", "other_instances_constructed", "refitted_on_structureless_series",
                   "failed_refit_checked", "non_consecutive_training_index", "integer_valued_series",
                   "update_with_older_data", "stale_update_inside_training"]}
 FAULT_KINDS = {"C13": ["index_shift", "pickle_roundtrip", "update_interleaved", "overlap_batch",
-                       "shared_constructor_arguments", "fit_raises_midway"]}
+                       "shared_constructor_arguments", "fit_raises_midway", "other_instance_interleaved"]}
 RULE = {"C13": (
     "seeded transformer configuration x series x history of fit, round trips on stretches that "
     "start inside / across the end of / after the training series, interleaved update calls and "
@@ -188,6 +188,8 @@ def generate(prop, rng, tier):
                         "stride": rng.choice([2, 3]), "first": rng.choice(["transform", "inverse"])})
         else:
             ops.append({"op": "pickle"})
+    if rng.random() < 0.2:
+        ops.insert(rng.randint(1, len(ops)), {"op": "other_instances"})
     series_sp = rng.choice([2, 3, 4, 5, 7])
     if _base0(spec)["kind"] == "cdeseason" and spec["kind"] != "ttf_t":
         # a training series that IS seasonal at the configured period, and often a second fit
@@ -636,6 +638,24 @@ def execute(prop, scen):
                           second, list(w2.index[:6]), C.fmt(got), first, list(w1.index[:6]),
                           C.fmt(exp_)), op="unpaired", second=second)
                     break
+            elif o == "other_instances":
+                # elsewhere in the program other transformer objects are CONSTRUCTED (not used):
+                # differently configured instances of classes that may also sit in the one under test
+                with peers.paused():
+                    try:
+                        from sklearn.preprocessing import Binarizer, MinMaxScaler
+                        from sktime.transformations.series.adapt import TabularToSeriesAdaptor
+                        from sktime.transformations.series.boxcox import LogTransformer
+                        from sktime.transformations.series.compose import OptionalPassthrough
+                        from sktime.transformations.series.detrend import Deseasonalizer, Detrender
+                        from sktime.transformations.series.impute import Imputer
+                        made = [TabularToSeriesAdaptor(MinMaxScaler()), OptionalPassthrough(LogTransformer(), True),
+                                Deseasonalizer(sp=7, model="multiplicative"), Detrender(), Imputer(method="mean"),
+                                TabularToSeriesAdaptor(Binarizer())]   # (no inverse_transform)
+                        res.probe("other_instances_constructed")
+                        res.fault("other_instance_interleaved", len(made))
+                    except Exception as e:  # noqa
+                        digest.update(("other:%s" % type(e).__name__).encode())
             elif o == "pickle":
                 with peers.paused():
                     t = C.pickle_roundtrip(t)
